@@ -48,7 +48,7 @@ CBMC_FLAGS = [
 
 MUX_FEATURES = "std,nohash,tokio-io-util,tokio-time"
 
-SHIMS_ALL = ["bytes", "tokio", "hashbrown", "parking_lot_core", "tracing", "tracing-attributes"]
+SHIMS_ALL = ["bytes", "tokio", "hashbrown", "parking_lot", "parking_lot_core", "tracing", "tracing-attributes"]
 
 # property classes whose failure is not a verdict about the property
 CLASS_UNWIND = {"unwind"}
@@ -464,6 +464,11 @@ def run_harness(meta, spec: H, profile: str, workdir: Path, tier: str):
         if sets:
             cmd += ["--unwindset", ",".join(sets)]
         r["unwindset"] = len(sets)
+    # Heap objects are byte arrays for CBMC; with the default limit (64) it stops propagating
+    # constants through any allocation larger than 64 bytes, so every enum tag or flag read
+    # back from an Arc / Vec / coroutine is symbolic and all match arms are explored.
+    fs = os.environ.get("VERIF_FIELD_SENS", "1024")
+    cmd += ["--max-field-sensitivity-array-size", fs]
     cmd += spec.extra_cbmc + ["--slice-formula", str(out), "--verbosity", "8", "--json-ui"]
     jpath = wd / "cbmc.json"
     rc, secs, rss, to = run_proc(cmd, tmo, mem, stdout_path=jpath)
@@ -525,6 +530,9 @@ def classify(r, spec: H):
                     trace_vals=p.get("trace_vals", []))
         if p["desc"].startswith("P:"):
             viol.append(item)
+            continue
+        if p["desc"].startswith("BOUND:"):
+            inconc.append(p["desc"])
             continue
         key = f"{p['desc']} @ {p['func']}"
         if any(a.search(key) for a in spec.allow):
@@ -862,7 +870,7 @@ def write_evidence(pid, tier, seed, spec, results, build_info, wall, n_viol, not
             obligations=tot_checks, discharged=tot_ok,
             covers_total=covers_total, covers_satisfied=covers_sat,
             exhaustive=False,
-            checker_cmd="cargo kani --only-codegen (kani 0.68.0) ; goto-cc ; goto-instrument --add-library/--generate-function-body/--drop-unused-functions ; cbmc " + " ".join(CBMC_FLAGS) + " --unwind <per harness> (CBMC 6.11.0, cadical)",
+            checker_cmd="cargo kani --only-codegen (kani 0.68.0) ; goto-cc ; goto-instrument --add-library/--generate-function-body/--drop-unused-functions ; cbmc " + " ".join(CBMC_FLAGS) + " --max-field-sensitivity-array-size 1024 --unwind <per harness> [--unwindset ...] (CBMC 6.11.0, cadical)",
             trusted_base=spec.get("trusted", []) + ["Kani 0.68.0 / CBMC 6.11.0 / CaDiCaL", "rustc MIR of Kani's pinned toolchain"],
             explanation=spec.get("explanation", ""),
             bounds=spec.get("bounds", {}), outside_claim=spec.get("outside", []),
